@@ -107,3 +107,211 @@ Proof.
   { repeat constructor; cbn; lia. }
   split; [vm_compute; reflexivity|]. split; vm_compute; reflexivity.
 Qed.
+
+(* =========================================================================== *)
+(* 2. the composed text, the stores, the capacity                                 *)
+(* =========================================================================== *)
+
+(* the text the engine produces when nothing is refused *)
+Fixpoint qtext (stp nb first : bool) (l : list qitem) : text :=
+  match l with
+  | [] => []
+  | (k, v) :: r =>
+    (if first then [] else [38%N]) ++ escape stp nb k
+      ++ (match v with None => [] | Some t => 61%N :: escape stp nb t end)
+      ++ qtext stp nb false r
+  end.
+Definition query_text (stp nb : bool) (l : list qitem) : text := qtext stp nb true l.
+
+(* every store of the log has an index below [cap] *)
+Definition log_below (cap : Z) (log : wlog) : Prop :=
+  Forall (fun p : nat * N => Z.of_nat (fst p) < cap) log.
+
+Lemma wr_cons w c t : wr w (c :: t) = (w, c) :: wr (S w) t.
+Proof. reflexivity. Qed.
+
+Lemma wr_below cap : forall t w, Z.of_nat w + Z.of_nat (length t) <= cap -> log_below cap (wr w t).
+Proof.
+  induction t as [|c t IH]; intros w H; [constructor|].
+  rewrite wr_cons. cbn [length] in H. constructor; [cbn [fst]; lia|]. apply IH. lia.
+Qed.
+
+Lemma log_below_app cap a b : log_below cap a -> log_below cap b -> log_below cap (a ++ b).
+Proof. intros Ha Hb. apply Forall_app. split; assumption. Qed.
+
+Lemma escape_len_Z stp nb t : Z.of_nat (length (escape stp nb t)) <= worst_case nb * Z.of_nat (length t).
+Proof. pose proof (escape_bound stp nb t) as H. destruct nb; cbn [worst_case]; lia. Qed.
+
+Definition cres_inv (stp nb : bool) (maxc : Z) (first : bool) (out : text) (l : list qitem) (res : cres) : Prop :=
+  match res with
+  | COk out' w log' =>
+    out' = out ++ qtext stp nb first l /\ w = Z.of_nat (length out') + 1
+    /\ Z.of_nat (length out') <= maxc /\ log_below (maxc + 1) log'
+    /\ no_item_too_large nb (map item_len l) = true
+  | CErr c out' log' =>
+    c = URI_ERROR_OUTPUT_TOO_LARGE /\ Z.of_nat (length out') <= maxc /\ log_below (maxc + 1) log'
+    /\ exists s, out ++ qtext stp nb first l = out' ++ s
+  end.
+
+Lemma item_len_vlen k v :
+  vlen_of (snd (item_len (k, v))) = match v with None => 0 | Some t => Z.of_nat (length t) end.
+Proof. destruct v; reflexivity. Qed.
+
+Lemma compose_loop_inv stp nb maxc : forall l first out log,
+  Z.of_nat (length out) <= maxc -> log_below (maxc + 1) log ->
+  cres_inv stp nb maxc first out l (compose_loop stp nb maxc first out log l).
+Proof.
+  induction l as [|[k v] r IH]; intros first out log Hout Hlog.
+  { cbn [compose_loop cres_inv qtext map no_item_too_large forallb]. rewrite app_nil_r.
+    repeat split; try lia. apply log_below_app; [assumption|]. apply wr_below. cbn [length]. lia. }
+  cbn [compose_loop].
+  set (kl := Z.of_nat (length k)).
+  set (vl := match v with None => 0 | Some t => Z.of_nat (length t) end).
+  destruct (item_too_large nb kl vl) eqn:Etl.
+  { cbn [cres_inv]. repeat split; try assumption. eexists. reflexivity. }
+  destruct (Z.of_nat (length out) + (if first then 0 else 1) + worst_case nb * kl >? maxc) eqn:Ek.
+  { cbn [cres_inv]. repeat split; try assumption. eexists. reflexivity. }
+  pose proof (escape_len_Z stp nb k) as Bk. fold kl in Bk. cbv zeta.
+  match goal with |- context [ ?x ++ escape stp nb k ] => set (out1 := x) end.
+  set (log1 := if first then log else log ++ wr (length out) [38%N]).
+  assert (Z.of_nat (length out1) = Z.of_nat (length out) + (if first then 0 else 1)) as Lout1.
+  { unfold out1. destruct first; [lia|]. rewrite app_length. cbn [length]. lia. }
+  assert (log_below (maxc + 1) log1) as Hlog1.
+  { unfold log1. destruct first; [assumption|]. apply log_below_app; [assumption|].
+    apply wr_below. cbn [length]. pose proof (worst_case_pos nb). unfold kl in *. nia. }
+  set (ek := escape stp nb k) in *.
+  assert (Z.of_nat (length (out1 ++ ek)) <= maxc) as Lout2.
+  { rewrite app_length. lia. }
+  assert (log_below (maxc + 1) (log1 ++ wr (length out1) (ek ++ [0%N]))) as Hlog2.
+  { apply log_below_app; [assumption|]. apply wr_below. rewrite app_length in *. cbn [length]. lia. }
+  match goal with |- cres_inv _ _ _ _ _ ?L _ =>
+  assert (out ++ qtext stp nb first L
+          = (out1 ++ ek) ++ (match v with None => [] | Some t => 61%N :: escape stp nb t end) ++ qtext stp nb false r) as Etxt end.
+  { cbn [qtext]. fold ek. unfold out1. destruct first; cbn [app]; rewrite <- ?app_assoc; reflexivity. }
+  destruct v as [t|].
+  - destruct (Z.of_nat (length (out1 ++ ek)) + 1 + worst_case nb * vl >? maxc) eqn:Ev.
+    { cbn [cres_inv]. repeat split; try assumption. rewrite Etxt. eexists. reflexivity. }
+    pose proof (escape_len_Z stp nb t) as Bt. fold vl in Bt.
+    set (out3 := (out1 ++ ek) ++ [61%N]).
+    assert (Z.of_nat (length out3) = Z.of_nat (length (out1 ++ ek)) + 1) as Lout3.
+    { unfold out3. rewrite (app_length (out1 ++ ek)). cbn [length]. lia. }
+    set (ev := escape stp nb t) in *.
+    specialize (IH false (out3 ++ ev)
+                   ((log1 ++ wr (length out1) (ek ++ [0%N])) ++ wr (length (out1 ++ ek)) [61%N]
+                      ++ wr (length out3) (ev ++ [0%N]))).
+    rewrite <- app_assoc.
+    match type of IH with ?A -> ?B -> _ =>
+      assert A as HA; [|assert B as HB; [|specialize (IH HA HB)]] end.
+    { rewrite app_length. lia. }
+    { apply log_below_app; [assumption|]. apply log_below_app.
+      - apply wr_below. cbn [length]. pose proof (worst_case_pos nb). unfold vl in *. nia.
+      - apply wr_below. rewrite app_length. cbn [length]. lia. }
+    destruct (compose_loop stp nb maxc false (out3 ++ ev) _ r) as [c o lg|o w lg]; cbn [cres_inv] in *.
+    + destruct IH as (Hc & Ho & Hlg & s & Es). repeat split; try assumption.
+      exists s. rewrite Etxt. rewrite <- Es. unfold out3. rewrite <- !app_assoc. reflexivity.
+    + destruct IH as (Ho & Hw & Hlen & Hlg & Hni). repeat split; try assumption.
+      * rewrite Etxt, Ho. unfold out3. rewrite <- !app_assoc. reflexivity.
+      * cbn [map no_item_too_large forallb]. rewrite item_len_vlen. cbn [item_len fst].
+        fold kl. fold vl. rewrite Etl. exact Hni.
+  - specialize (IH false (out1 ++ ek) (log1 ++ wr (length out1) (ek ++ [0%N])) Lout2 Hlog2).
+    destruct (compose_loop stp nb maxc false (out1 ++ ek) _ r) as [c o lg|o w lg]; cbn [cres_inv] in *.
+    + destruct IH as (Hc & Ho & Hlg & s & Es). repeat split; try assumption.
+      exists s. rewrite Etxt. rewrite <- Es. cbn [app]. reflexivity.
+    + destruct IH as (Ho & Hw & Hlen & Hlg & Hni). repeat split; try assumption.
+      * rewrite Etxt, Ho. reflexivity.
+      * cbn [map no_item_too_large forallb]. rewrite item_len_vlen. cbn [item_len fst].
+        fold kl. fold vl. rewrite Etl. exact Hni.
+Qed.
+
+(* with room for the worst-case estimate of every item the engine does not refuse *)
+Lemma compose_loop_succeeds stp nb maxc : forall l first out log,
+  no_item_too_large nb (map item_len l) = true ->
+  Z.of_nat (length out) + total_loop nb first (map item_len l) <= maxc ->
+  exists o w lg, compose_loop stp nb maxc first out log l = COk o w lg.
+Proof.
+  induction l as [|[k v] r IH]; intros first out log Hn Hb.
+  { cbn [compose_loop]. eauto. }
+  cbn [map no_item_too_large forallb] in Hn. rewrite item_len_vlen in Hn. cbn [item_len fst] in Hn.
+  apply andb_prop in Hn. destruct Hn as [Hn1 Hn2]. apply negb_true_iff in Hn1.
+  cbn [compose_loop]. rewrite Hn1.
+  cbn [map total_loop item_len fst snd option_map] in Hb.
+  assert (lens_ok (map item_len r)) as Hlr.
+  { apply Forall_forall. intros x Hx. apply in_map_iff in Hx. destruct Hx as [[k' v'] [<- _]].
+    cbn. split; [lia|]. destruct v'; cbn; [lia|trivial]. }
+  pose proof (total_loop_nonneg nb _ false Hlr) as Ht. pose proof (worst_case_pos nb) as Hw.
+  pose proof (escape_len_Z stp nb k) as Bk.
+  destruct (Z.of_nat (length out) + (if first then 0 else 1) + worst_case nb * Z.of_nat (length k) >? maxc) eqn:Ek.
+  { exfalso. destruct v; cbn [option_map] in Hb; nia. }
+  cbv zeta.
+  match goal with |- context [ ?x ++ escape stp nb k ] => set (out1 := x) end.
+  assert (Z.of_nat (length out1) = Z.of_nat (length out) + (if first then 0 else 1)) as Lout1.
+  { unfold out1. destruct first; [lia|]. rewrite app_length. cbn [length]. lia. }
+  destruct v as [t|]; cbn [option_map] in Hb.
+  - pose proof (escape_len_Z stp nb t) as Bt.
+    destruct (Z.of_nat (length (out1 ++ escape stp nb k)) + 1 + worst_case nb * Z.of_nat (length t) >? maxc) eqn:Ev.
+    { exfalso. rewrite app_length in Ev. nia. }
+    apply IH; [assumption|]. rewrite !app_length. cbn [length]. nia.
+  - apply IH; [assumption|]. rewrite !app_length. nia.
+Qed.
+
+(* ---- uriComposeQueryEx ------------------------------------------------------------ *)
+(* Whatever the capacity: every store has an index below maxChars; on success the text is
+   the composed text, it fits with its terminator, and text length + 1 is reported; a refusal
+   carries the too-large code (or the NULL code for a NULL argument). *)
+Theorem compose_ex_fits dn stp nb cap l :
+  match compose_ex dn stp nb cap l with
+  | COk out w log =>
+    out = query_text stp nb l /\ w = Z.of_nat (length out) + 1 /\ Z.of_nat (length out) + 1 <= cap
+    /\ log_below cap log
+  | CErr c out log =>
+    log_below cap log /\ Z.of_nat (length out) <= Z.max 0 (cap - 1)
+    /\ (exists s, query_text stp nb l = out ++ s)
+    /\ (c = URI_ERROR_OUTPUT_TOO_LARGE \/ (c = URI_ERROR_NULL /\ (dn = true \/ l = [])))
+  end.
+Proof.
+  unfold compose_ex. destruct l as [|it r].
+  { split; [constructor|]. split; [cbn [length]; lia|]. split; [exists []; reflexivity|]. right. auto. }
+  destruct dn.
+  { split; [constructor|]. split; [cbn [length]; lia|]. split; [eexists; reflexivity|]. right. auto. }
+  destruct (cap <? 1) eqn:Ec.
+  { split; [constructor|]. split; [cbn [length]; lia|]. split; [eexists; reflexivity|]. left. reflexivity. }
+  pose proof (compose_loop_inv stp nb (cap - 1) (it :: r) true [] []) as H.
+  cbn [length] in H. specialize (H ltac:(lia) ltac:(constructor)).
+  destruct (compose_loop stp nb (cap - 1) true [] [] (it :: r)) as [c o lg|o w lg]; cbn [cres_inv] in H.
+  - destruct H as (Hc & Ho & Hlg & s & Es). replace (cap - 1 + 1) with cap in Hlg by lia.
+    split; [assumption|]. split; [lia|]. split; [exists s; exact Es|]. left. exact Hc.
+  - destruct H as (Ho & Hw & Hlen & Hlg & _). replace (cap - 1 + 1) with cap in Hlg by lia.
+    repeat split; try assumption; try lia.
+Qed.
+
+(* the chars-required figure (+1 for the terminator) is always enough, and the text is no longer *)
+Theorem chars_required_sufficient stp nb l r :
+  chars_required stp nb l = ZOk r -> sum_wraps nb (map item_len l) = false ->
+  forall cap, r + 1 <= cap ->
+  exists log, compose_ex false stp nb cap l
+              = COk (query_text stp nb l) (Z.of_nat (length (query_text stp nb l)) + 1) log
+  /\ Z.of_nat (length (query_text stp nb l)) <= r.
+Proof.
+  intros Hr Hs cap Hcap. unfold chars_required in Hr.
+  assert (lens_ok (map item_len l)) as Hl.
+  { apply Forall_forall. intros x Hx. apply in_map_iff in Hx. destruct Hx as [[k' v'] [<- _]].
+    cbn. split; [lia|]. destruct v'; cbn; [lia|trivial]. }
+  destruct l as [|it l']; [discriminate|].
+  assert (no_item_too_large nb (map item_len (it :: l')) = true) as Hn
+    by (eapply required_loop_ok_items; exact Hr).
+  rewrite chars_required_len_no_wrap in Hr; [|discriminate|assumption|assumption].
+  rewrite Hn in Hr. injection Hr as Hr.
+  pose proof (total_loop_nonneg nb _ true Hl) as Ht. fold (total_size nb (map item_len (it :: l'))) in Ht.
+  destruct (compose_loop_succeeds stp nb (cap - 1) (it :: l') true [] [] Hn) as (o & w & lg & E).
+  { cbn [length]. unfold total_size in Hr. cbn [map] in *. lia. }
+  pose proof (compose_loop_inv stp nb r (it :: l') true [] []) as Hr_inv.
+  destruct (compose_loop_succeeds stp nb r (it :: l') true [] [] Hn) as (o' & w' & lg' & E').
+  { cbn [length]. unfold total_size in Hr. cbn [map] in *. lia. }
+  assert (0 <= r) as Hr0 by (unfold total_size in *; cbn [map] in *; lia).
+  cbn [length] in Hr_inv. specialize (Hr_inv ltac:(lia) ltac:(constructor)). rewrite E' in Hr_inv.
+  cbn [cres_inv] in Hr_inv. destruct Hr_inv as (Ho' & _ & Hlen' & _).
+  pose proof (compose_ex_fits false stp nb cap (it :: l')) as F.
+  unfold compose_ex in *. destruct (cap <? 1) eqn:Ec; [lia|]. rewrite E in *.
+  destruct F as (Fo & Fw & _ & _). subst o w. exists lg. split; [reflexivity|].
+  cbn [app] in Ho'. unfold query_text. rewrite <- Ho'. exact Hlen'.
+Qed.
